@@ -142,14 +142,16 @@ def mvar_str(m: MVar) -> str:
         m.extra, ','.join(rat(v) for v in m.data) or '-'])
 
 
-def dataset_str(sizes: dict, mvars: list) -> str:
-    """`k=3,t=2|name;c;dims;positive;bounds;extra;data|...` with variables sorted by name"""
+def dataset_str(sizes: dict, mvars: list, sort: bool = False) -> str:
+    """`k=3,t=2|name;c;dims;positive;bounds;extra;data|...`; the model's input keeps the dataset's
+    variable order (it decides which variable of a group is looked at first), outputs are sorted by name"""
     head = ','.join(f'{k}={v}' for k, v in sorted(sizes.items())) or '-'
-    return '|'.join([head] + [mvar_str(m) for m in sorted(mvars, key=lambda m: m.name)])
+    return '|'.join([head] + [mvar_str(m) for m in (sorted(mvars, key=lambda m: m.name) if sort else mvars)])
 
 
 def dataset_line(ds: xr.Dataset) -> str:
-    return dataset_str(*model_view(ds))
+    """canonical form of an output dataset"""
+    return dataset_str(*model_view(ds), sort=True)
 
 
 def safe_token(s: str | None) -> bool:
